@@ -38,7 +38,7 @@ ASSUMPTIONS = [
     "an int node defined by an expression is judged when the exact result is at least 0.01 away from a half-integer and below 1e9",
     "malformed strings (outside the three grammars) are compared for information only: rejecting them is property C01",
     "format()/str() of Python are parameters of the template specification",
-    "template texts: slices are well formed ([1:2:3] or [1,,2] make the code raise ValueError inside the slice parser - not modelled), "
+    "template texts: malformed slices ([1:2:3], [1,,2]: ValueError inside the slice parser, also without a reference before them) are part of the near-miss texts; "
     "near-miss texts slice arrays down to scalars or 2-d parts only (the empty range n:n, kept apart from the index n, is generated on str nodes)",
 ]
 EXPLANATION = ("theorems: every pass of the regenerated step tables reduces exactly the sub-trees of its priority level, left to right "
@@ -984,7 +984,7 @@ def gen_tpl_nearmiss(rng, E):
     for _ in range(rng.randint(1, 5)):
         r = rng.random()
         if r < 0.3:
-            out += rng.choice(["x = ", " ", "{", "}", "{ ", "a{b", "\n", "{}", "{{}", "[0]", ":d", "{{"])
+            out += rng.choice(["x = ", " ", "{", "}", "{ ", "a{b", "\n", "{}", "{{}", "[0]", ":d", "{{", "{[1:2:3]", "{[1,]}", "{ [1,,2]", "{[:,1]", "[1:2:3]"])
             continue
         cands = [(n, kind) for n, (kind, val, unit, d) in E.nodes.items()]
         n, kind = rng.choice(cands)
@@ -1000,7 +1000,7 @@ def gen_tpl_nearmiss(rng, E):
         out += rng.choice(["{{", "{{", "{{", "{ {", "{  {", "{", "{{{"])
         out += rng.choice(["?" + n, "?" + n, "?" + n, "?" + n, "", "?zz", n])
         out += rng.choice(["}", "}", "}", "}", "", " }"])
-        out += rng.choice(slices)
+        out += rng.choice(slices) if rng.random() < 0.9 else rng.choice(["[1:2:3]", "[1,,2]", "[,]", "[0][::]", "[0,]", "[]", "[1:2"])
         out += rng.choice(fmts + [":5", ":.2f:d", ":x", " :d"]) if rng.random() < 0.6 else ""
         out += rng.choice(["}", "}", "}", "}", "}", "", " }", "}}"])
     return out
@@ -1015,7 +1015,8 @@ def tpl_text_stream(ctx, envs, count):
         E, units = rng.choice(envs)
         cases.append((E, gen_tpl_nearmiss(rng, E)))
     E0 = envs[0][0]
-    for t in ["{ {?name}}", "{{?name}", "{{?name}[1:][:2]}", "{{{?name}}", "{{}", "{{?name}:5}", "{{?name} }"]:
+    for t in ["{ {?name}}", "{{?name}", "{{?name}[1:][:2]}", "{{{?name}}", "{{}", "{{?name}:5}", "{{?name} }",
+              "{{?name}[1:2:3]}", "{{?name}[1][,]}", "{[1:2:3]", "{ [1:2:3]", "{{}[1,,2]}", "a{[,]", "{{?name}[1:1]}"]:
         cases.append((E0, t))
     scans = ctx.driver.ask_many([{"p": "C18", "k": "tpl", "text": t} for _, t in cases])
     outs = tpl_model_output(ctx, [(E, t, r) for (E, t), r in zip(cases, scans)])
